@@ -1,7 +1,7 @@
 (** * C08: === and !== compare primitives by type and value; containers are never equal.
     Statements only. *)
 From Coq Require Import List Bool.
-From JL Require Import Base.Json Base.Monad Model.JsOp Model.Ops Spec.Specs Proofs.OpsBasic Proofs.Floats.
+From JL Require Import Base.Json Base.Monad Model.JsOp Model.Ops Spec.Specs Proofs.OpsBasic Proofs.Floats Proofs.Extra Proofs.Compare.
 Import ListNotations.
 
 (** the operator calls strict_eq on two distinct slots of a freshly collected operand vector, so
@@ -32,3 +32,8 @@ Proof.
   - apply str_eqb_sym.
 Qed.
 Print Assumptions C08_symmetric.
+
+(** whenever === holds, == holds too - on the specifications, hence (C07_eq) on the code's helpers *)
+Theorem C08_strict_implies_abstract : forall a b, es_strict_eq a b = true -> es_eq a b = true.
+Proof. exact strict_implies_abstract. Qed.
+Print Assumptions C08_strict_implies_abstract.
